@@ -1,13 +1,15 @@
-(* Run/C38.v — case decoder / observable encoder for the C38 correspondence.
-   case  ( (block*) (op*) )
-     block = (id parent number ((txid nlogs)*))       id 0 = genesis (parent ignored)
-     op    = (0 (id*)) InsertChain | (1 id) InsertBlockWithoutSetHead | (2 id) SetCanonical
+(* Run/C38.v -- case decoder / observable encoder for the C38 correspondence.
+   case  = ( BLOCKS OPS )
+     block = (id parent number TXS)  with TXS a list of (txid nlogs); id 0 = genesis
+     op    = (0 IDS) InsertChain | (1 id) InsertBlockWithoutSetHead | (2 id) SetCanonical
            | (3 n) SetHead | (4) Stop + NewBlockChain
    obs   one entry per op:
-     ( errclass (canon[0..maxnum+1] as (id)|()) (head_block head_header head_snap)
-       (lookup per tx id of the case, ascending: (n)|())
-       (chain-event ids) (removed-log events) (log events) (head-event ids) )
-   log id = (block*4096 + tx)*64 + index-in-block. *)
+     ( errclass CANON HEADS LOOKUPS CHAINEV REMOVED LOGS HEADEV )
+       CANON   = canon[0..maxnum+1], each (id) or ()
+       HEADS   = (head_block head_header head_snap)
+       LOOKUPS = per tx id of the case, ascending: (n) or ()
+       CHAINEV / HEADEV = block ids; REMOVED / LOGS = one list of log ids per event
+   log id = (block x 4096 + tx) x 64 + index-in-block. *)
 From GV Require Import Lib.Sx Chain.Tree Chain.Canonical.
 Local Open Scope N_scope.
 
@@ -28,7 +30,9 @@ Definition dec_block (s : sx) : option (N * block * list N) :=
   | SL [i; p; n; txs] =>
     match sx_N i, sx_N p, sx_N n, sx_list_of dec_tx txs with
     | Some i, Some p, Some n, Some txs =>
-      Some (i, mkblock p n (map fst txs) (tx_logs i txs 0), map fst txs)
+      (* the genesis header's ParentHash is the zero hash, which is no block: sentinel *)
+      let p' := if i =? 0 then 4294967295 else p in
+      Some (i, mkblock p' n (map fst txs) (tx_logs i txs 0), map fst txs)
     | _, _, _, _ => None
     end
   | _ => None
